@@ -66,7 +66,27 @@ var pxBranchRe = regexp.MustCompile(`^(?i:via|v)\s*:\s*SIP/2\.0/(?:UDP|TCP) ([0-
 
 // "proxytb": the same driver; its cases configure tcp:// backends and use two more event kinds (bdata / bclose: the
 // connection the proxy has open TO a peer address, whichever number it got)
-func init() { components["proxy"] = runProxyCase; components["proxytb"] = runProxyCase }
+func init() {
+	components["proxy"] = runProxyCase
+	components["proxytb"] = func(k *toks, o *out) {
+		pxTB = true
+		defer func() { pxTB = false }()
+		runProxyCase(k, o)
+	}
+}
+
+// in "proxytb" cases the barrier pushed through a connection the proxy dialled is a RESPONSE (routed to the barrier
+// socket by its second Via): a barrier REQUEST arriving from a backend's address would teach the proxy that address
+// (self-learned route), which no event of the case does
+var pxTB bool
+
+func (pc *pxCase) barrierResp() []byte {
+	return []byte("SIP/2.0 200 OK\r\n" +
+		"Via: SIP/2.0/UDP " + pc.barAddr + ":5998;branch=z9hG4bKbarrier0\r\n" +
+		"Via: SIP/2.0/UDP " + pc.barAddr + ":5999;branch=z9hG4bKbarrier\r\n" +
+		"From: <sip:barrier@" + pc.barAddr + ">;tag=b\r\nTo: <sip:barrier@" + pc.barAddr + ">;tag=c\r\n" +
+		"Call-ID: barrier\r\nCSeq: 1 OPTIONS\r\nContent-Length: 0\r\n\r\n")
+}
 
 // the most recent connection the proxy dialled to ip:port that is still open
 func (pc *pxCase) dialledTo(ip string, port int) int {
@@ -273,6 +293,12 @@ func (pc *pxCase) learnBranch(e int, msg []byte) {
 		// local port of a connection the proxy dialled itself (nobody else lives on a listener address of the block)
 		for _, l := range pc.listens {
 			if m[1] == l.addr {
+				own = true
+			}
+		}
+		// ... or the local end of a connection the proxy dialled without binding a listener address (to a TCP backend)
+		for _, c := range pc.conns {
+			if c.ephem != "" && c.ephem == m[1]+":"+m[2] {
 				own = true
 			}
 		}
@@ -573,7 +599,11 @@ func runProxyCase(k *toks, o *out) {
 			}
 			if !cn.eof {
 				cn.c.Write(data)
-				cn.c.Write(pc.barrierMsg("TCP"))
+				if pxTB && cn.li == -1 {
+					cn.c.Write(pc.barrierResp())
+				} else {
+					cn.c.Write(pc.barrierMsg("TCP"))
+				}
 				if !pc.waitBarrier(cn) {
 					pc.udpBarrier(li)
 				}
